@@ -61,5 +61,7 @@ func init() {
 	}
 	register("c03.lex", lexLeg)
 	register("c04.toks", lexLeg) // C04 looks at the same token stream (ranges vs. the LSP reading of the text)
+	// C04: the Locs of every name-bearing AST node (what definition / references / rename / symbols forward)
+	register("c04.names", func(line string) string { return parseObservable(unhex(strings.Fields(line)[0])) })
 	register("c01.parse", func(line string) string { return parseObservable(unhex(strings.Fields(line)[0])) })
 }
